@@ -59,12 +59,20 @@ CONSTANTS MaxTok,    \* token lists of length 0..MaxTok
           MaxRunes,  \* a string has 1..MaxRunes runes
           RuneKinds, \* subset of {"p", "e", "b"}: how the runes of a string may be written
           MaxPeek,   \* push-backs between two receives
-          DecMode, LineMode
+          DecMode, LineMode,
+          WithComments, \* TRUE: token lists may contain comments ("# ..." up to the end of the line or of the input)
+          CommentMode,  \* "eofsafe": the comment loop stops at '\n' and at end of input (the design)
+                        \* "newlineonly": it stops at '\n' only (negative configuration)
+          Pres,         \* preconditions of Parse that may fail: subset of {"ok", "nocmap"}
+          SpawnMode     \* "afterchecks": the lexer goroutine is started once the preconditions hold (the design)
+                        \* "first": it is started first (negative configuration)
 
 VARIABLES toks,      \* the token list of this behaviour: records [k, n]
           lexerr,    \* TRUE: the lexer ends with an error item instead of EOF
-          lpc, li,   \* lexer: "send" (blocked in items <- item no. li), "close", "exit"
-          ppc,       \* parser: "idle", "decide", "runes", "fatal", "drain", "exit"
+          pre,       \* "ok", or the precondition of Parse that fails ("nocmap": no usable character map)
+          lpc, li,   \* lexer: "none" (not started), "send" (scanning / blocked in items <- item no. li), "close", "exit"
+          scn,       \* runes of the current comment consumed so far
+          ppc,       \* parser: "start", "idle", "decide", "runes", "fatal", "drain", "exit"
           backlog,   \* parser.backlog (a stack, top = last)
           cur,       \* the item readItem returned
           held,      \* readChainedSeqCtx: `next`, kept while the item after it is peeked
@@ -76,10 +84,11 @@ VARIABLES toks,      \* the token list of this behaviour: records [k, n]
           result,    \* what Parse returned
           fat        \* where the parse error struck (for the conformance cases)
 
-vars == <<toks, lexerr, lpc, li, ppc, backlog, cur, held, npeek, lastLine, errLine,
+vars == <<toks, lexerr, pre, lpc, li, scn, ppc, backlog, cur, held, npeek, lastLine, errLine,
           dec, curDec, result, fat>>
 
 Tok == {[k |-> "t", n |-> 0, r |-> <<>>], [k |-> "nl", n |-> 0, r |-> <<>>]}
+       \cup (IF WithComments THEN {[k |-> "c", n |-> m, r |-> <<>>] : m \in 0..1} ELSE {})   \* "#" and m more runes
        \cup UNION {{[k |-> "s", n |-> m, r |-> rr] : rr \in [1..m -> RuneKinds]} : m \in 1..MaxRunes}
 
 \* length in bytes of a string token (with its quotes), backslash bytes in it, capacity of its channel
@@ -91,7 +100,10 @@ Cap(tok) == CASE DecMode = "buffered"   -> Bytes(tok)
               [] DecMode = "unbuffered" -> 0
               [] DecMode = "tight"      -> Bytes(tok) - 2 - Backsl(tok)
 NStr(s) == Cardinality({i \in 1..Len(s) : s[i].k = "s"})
-TokLists == {s \in UNION {[1..len -> Tok] : len \in 0..MaxTok} : NStr(s) <= MaxStr}
+\* a comment extends to the end of its line: it is followed by a line break or it is the end of the input
+TokLists == {s \in UNION {[1..len -> Tok] : len \in 0..MaxTok} :
+               /\ NStr(s) <= MaxStr
+               /\ \A i \in 1..Len(s) : s[i].k = "c" => (i = Len(s) \/ s[i + 1].k = "nl")}
 
 None == [k |-> "none", n |-> 0, line |-> 0, idx |-> 0]
 N == Len(toks)
@@ -108,19 +120,49 @@ ZeroItem == [k |-> "ZERO", n |-> 0, line |-> (IF LineMode = "tracked" THEN lastL
 NoDec == [pc |-> "none", n |-> 0, sent |-> 0, buf |-> 0, cap |-> 0]
 
 Init ==
-  /\ toks \in TokLists /\ lexerr \in BOOLEAN
-  /\ lpc = "send" /\ li = 1
-  /\ ppc = "idle" /\ backlog = <<>> /\ cur = None /\ held = None /\ npeek = 0
+  /\ toks \in TokLists /\ lexerr \in BOOLEAN /\ pre \in Pres
+  /\ (Len(toks) > 0 /\ toks[Len(toks)].k = "c") => ~lexerr      \* nothing follows a comment at the end of the input
+  /\ lpc = "none" /\ li = 1 /\ scn = 0
+  /\ ppc = "start" /\ backlog = <<>> /\ cur = None /\ held = None /\ npeek = 0
   /\ lastLine = 0 /\ errLine = 0
   /\ dec = [d \in 1..MaxTok |-> NoDec] /\ curDec = 0
   /\ result = [kind |-> "none", line |-> 0]
   /\ fat = [at |-> 0, str |-> 0, rune |-> 0]
 
 ---------------------------------------------------------------------------
+(* Parse, parser.go:39-62.  Preconditions first (a font without a usable    *)
+(* character map is refused with an error that has no line: nothing has    *)
+(* been parsed); the design starts the lexer goroutine only after they     *)
+(* hold, so that an early return leaves nothing behind.                    *)
+Start ==
+  /\ ppc = "start"
+  /\ lpc' = IF pre = "ok" \/ SpawnMode = "first" THEN "send" ELSE lpc     \* go l.run()
+  /\ IF pre = "ok" THEN ppc' = "idle" /\ UNCHANGED result
+     ELSE ppc' = "exit" /\ result' = [kind |-> "early", line |-> 0]      \* EarlyExit
+  /\ UNCHANGED <<toks, lexerr, pre, li, scn, backlog, cur, held, npeek, lastLine, errLine, dec, curDec, fat>>
+
+(* The lexer between two items.  Every loop of lexer.go (white space,      *)
+(* identifier, string, integer, comment) calls l.next() once per           *)
+(* iteration and stops at its delimiter OR at eof; l.next() consumes a     *)
+(* rune unless the input is exhausted, so each loop runs at most           *)
+(* len(input)+1 times: scanning terminates.  Only the comment loop is      *)
+(* modelled rune by rune, because a comment is the one construct that      *)
+(* produces no item -- a loop that waits for '\n' alone never ends when    *)
+(* the input ends inside a comment, while the parser waits for an item.    *)
+IsComment(i) == i <= Len(toks) /\ toks[i].k = "c"
+LexScan ==
+  /\ lpc = "send" /\ IsComment(li)
+  /\ IF scn < toks[li].n
+       THEN scn' = scn + 1 /\ UNCHANGED li                         \* a rune of the comment
+       ELSE IF li < Len(toks) \/ CommentMode = "eofsafe"
+              THEN scn' = 0 /\ li' = li + 1                        \* '\n' (left for the next item) or eof: stop
+              ELSE UNCHANGED <<scn, li>>                           \* eof is not '\n': next() again, for ever
+  /\ UNCHANGED <<toks, lexerr, pre, lpc, ppc, backlog, cur, held, npeek, lastLine, errLine, dec, curDec, result, fat>>
+
 (* <-p.tokens : rendezvous with the lexer's blocked send, or the zero item *)
 (* once the channel is closed; blocks while the lexer is between its last  *)
 (* send and close(l.items).                                                *)
-CanRecv == lpc \in {"send", "exit"}
+CanRecv == (lpc = "send" /\ ~IsComment(li)) \/ lpc = "exit"
 Recvd   == IF lpc = "send" THEN LexItem(li) ELSE ZeroItem
 RecvEffect ==
   IF lpc = "send"
@@ -129,7 +171,7 @@ RecvEffect ==
     ELSE UNCHANGED <<li, lpc>>
 
 LexClose == /\ lpc = "close" /\ lpc' = "exit"
-            /\ UNCHANGED <<toks, lexerr, li, ppc, backlog, cur, held, npeek, lastLine, errLine,
+            /\ UNCHANGED <<toks, lexerr, pre, scn, li, ppc, backlog, cur, held, npeek, lastLine, errLine,
                            dec, curDec, result, fat>>
 
 ---------------------------------------------------------------------------
@@ -146,7 +188,7 @@ ReadItem ==
             /\ lastLine' = IF Recvd.line > 0 THEN Recvd.line ELSE lastLine
             /\ UNCHANGED backlog
   /\ ppc' = "decide"
-  /\ UNCHANGED <<toks, lexerr, held, errLine, dec, curDec, result, fat>>
+  /\ UNCHANGED <<toks, lexerr, pre, scn, held, errLine, dec, curDec, result, fat>>
 
 \* the item is accepted by the grammar
 Consume ==
@@ -156,38 +198,38 @@ Consume ==
        THEN /\ ppc' = "fatal"                       \* required(...) got it: fatal follows
             /\ fat' = [at |-> li - 1, str |-> 0, rune |-> 0]
        ELSE ppc' = "idle" /\ UNCHANGED fat
-  /\ UNCHANGED <<toks, lexerr, lpc, li, backlog, held, npeek, lastLine, errLine, dec, curDec, result>>
+  /\ UNCHANGED <<toks, lexerr, pre, scn, lpc, li, backlog, held, npeek, lastLine, errLine, dec, curDec, result>>
 
 \* p.backlog = append(p.backlog, item): peek, optional, readGlyphList, readNestedLookups ...
 PushBack ==
   /\ ppc = "decide" /\ held = None /\ npeek < MaxPeek
   /\ backlog' = Append(backlog, cur) /\ cur' = None /\ npeek' = npeek + 1
   /\ ppc' = "idle"
-  /\ UNCHANGED <<toks, lexerr, lpc, li, held, lastLine, errLine, dec, curDec, result, fat>>
+  /\ UNCHANGED <<toks, lexerr, pre, scn, lpc, li, held, lastLine, errLine, dec, curDec, result, fat>>
 
 \* readChainedSeqCtx, parser.go:856-861: next := readItem(); peek(); push next
 Hold ==
   /\ ppc = "decide" /\ held = None /\ cur.k = "t" /\ npeek < MaxPeek
   /\ held' = cur /\ cur' = None /\ ppc' = "idle"
-  /\ UNCHANGED <<toks, lexerr, lpc, li, backlog, npeek, lastLine, errLine, dec, curDec, result, fat>>
+  /\ UNCHANGED <<toks, lexerr, pre, scn, lpc, li, backlog, npeek, lastLine, errLine, dec, curDec, result, fat>>
 PushBackBoth ==
   /\ ppc = "decide" /\ held # None
   /\ backlog' = backlog \o <<cur, held>> /\ cur' = None /\ held' = None /\ npeek' = npeek + 1
   /\ ppc' = "idle"
-  /\ UNCHANGED <<toks, lexerr, lpc, li, lastLine, errLine, dec, curDec, result, fat>>
+  /\ UNCHANGED <<toks, lexerr, pre, scn, lpc, li, lastLine, errLine, dec, curDec, result, fat>>
 
 \* parse() reads itemEOF and returns the lookups, parser.go:93
 ReturnOk ==
   /\ ppc = "decide" /\ held = None /\ cur.k = "EOF"
   /\ result' = [kind |-> "ok", line |-> 0] /\ ppc' = "exit" /\ cur' = None
-  /\ UNCHANGED <<toks, lexerr, lpc, li, backlog, held, npeek, lastLine, errLine, dec, curDec, fat>>
+  /\ UNCHANGED <<toks, lexerr, pre, scn, lpc, li, backlog, held, npeek, lastLine, errLine, dec, curDec, fat>>
 
 \* readGlyphList, parser.go:1124: for r := range decodeString(item.val) -- go statement
 StartDecode ==
   /\ ppc = "decide" /\ held = None /\ cur.k = "s"
   /\ dec' = [dec EXCEPT ![cur.idx] = [pc |-> "send", n |-> cur.n, sent |-> 0, buf |-> 0, cap |-> Cap(toks[cur.idx])]]
   /\ curDec' = cur.idx /\ cur' = None /\ ppc' = "runes"
-  /\ UNCHANGED <<toks, lexerr, lpc, li, backlog, held, npeek, lastLine, errLine, result, fat>>
+  /\ UNCHANGED <<toks, lexerr, pre, scn, lpc, li, backlog, held, npeek, lastLine, errLine, result, fat>>
 
 \* one iteration of the range loop: a rune arrives and is mapped (continue) or is not
 \* (p.fatal inside the loop body), or the channel is closed and the loop ends
@@ -206,14 +248,14 @@ RuneRecv ==
         /\ AfterRune(dec[d].sent - dec[d].buf + 1)
      \/ /\ dec[d].pc = "exit" /\ dec[d].buf = 0                  \* closed and empty
         /\ ppc' = "idle" /\ curDec' = 0 /\ UNCHANGED <<dec, fat>>
-  /\ UNCHANGED <<toks, lexerr, lpc, li, backlog, cur, held, npeek, lastLine, errLine, result>>
+  /\ UNCHANGED <<toks, lexerr, pre, scn, lpc, li, backlog, cur, held, npeek, lastLine, errLine, result>>
 
 \* a parse error is noticed between two reads (length mismatch, unknown flag, ...)
 FatalHere ==
   /\ ppc = "idle" /\ held = None
   /\ li > 1                                          \* something has been read
   /\ ppc' = "fatal" /\ fat' = [at |-> li - 1, str |-> 0, rune |-> 0]
-  /\ UNCHANGED <<toks, lexerr, lpc, li, backlog, cur, held, npeek, lastLine, errLine, dec, curDec, result>>
+  /\ UNCHANGED <<toks, lexerr, pre, scn, lpc, li, backlog, cur, held, npeek, lastLine, errLine, dec, curDec, result>>
 
 \* fatal(): panic(&parseError{next: p.peek(), ...}), parser.go:1492; recovered in Parse
 FatalPeek ==
@@ -226,7 +268,7 @@ FatalPeek ==
             /\ backlog' = Append(backlog, Recvd)
             /\ lastLine' = IF Recvd.line > 0 THEN Recvd.line ELSE lastLine
   /\ ppc' = "drain"
-  /\ UNCHANGED <<toks, lexerr, cur, held, npeek, dec, curDec, result, fat>>
+  /\ UNCHANGED <<toks, lexerr, pre, scn, cur, held, npeek, dec, curDec, result, fat>>
 
 \* for range tokens { }, parser.go:65
 Drain ==
@@ -235,7 +277,7 @@ Drain ==
        THEN RecvEffect /\ UNCHANGED <<ppc, result>>
        ELSE /\ result' = [kind |-> "error", line |-> errLine] /\ ppc' = "exit"
             /\ UNCHANGED <<li, lpc>>
-  /\ UNCHANGED <<toks, lexerr, backlog, cur, held, npeek, lastLine, errLine, dec, curDec, fat>>
+  /\ UNCHANGED <<toks, lexerr, pre, scn, backlog, cur, held, npeek, lastLine, errLine, dec, curDec, fat>>
 
 ---------------------------------------------------------------------------
 (* decodeString goroutine, parser.go:1393-1418 *)
@@ -247,19 +289,20 @@ DecClose(d) ==
   /\ dec[d].pc = "close"
   /\ dec' = [dec EXCEPT ![d].pc = "exit"]
 DecStep == /\ \E d \in 1..MaxTok : DecSend(d) \/ DecClose(d)
-           /\ UNCHANGED <<toks, lexerr, lpc, li, ppc, backlog, cur, held, npeek, lastLine, errLine,
+           /\ UNCHANGED <<toks, lexerr, pre, scn, lpc, li, ppc, backlog, cur, held, npeek, lastLine, errLine,
                           curDec, result, fat>>
 
 ---------------------------------------------------------------------------
-ParserStep == ReadItem \/ Consume \/ PushBack \/ Hold \/ PushBackBoth \/ ReturnOk \/ StartDecode
+LexStep == LexClose \/ LexScan
+ParserStep == Start \/ ReadItem \/ Consume \/ PushBack \/ Hold \/ PushBackBoth \/ ReturnOk \/ StartDecode
               \/ RuneRecv \/ FatalHere \/ FatalPeek \/ Drain
-Moves == LexClose \/ ParserStep \/ DecStep
+Moves == LexStep \/ ParserStep \/ DecStep
 
-Terminated == ppc = "exit" /\ lpc = "exit" /\ \A d \in 1..MaxTok : dec[d].pc \in {"none", "exit"}
+Terminated == ppc = "exit" /\ lpc \in {"none", "exit"} /\ \A d \in 1..MaxTok : dec[d].pc \in {"none", "exit"}
 Next == Moves \/ (Terminated /\ UNCHANGED vars)
 
 Spec == Init /\ [][Next]_vars
-FairSpec == Spec /\ WF_vars(LexClose) /\ WF_vars(ParserStep) /\ WF_vars(DecStep)
+FairSpec == Spec /\ WF_vars(LexStep) /\ WF_vars(ParserStep) /\ WF_vars(DecStep)
 
 ---------------------------------------------------------------------------
 Quiescent == ~ENABLED Moves
@@ -270,9 +313,10 @@ Obs == [returned |-> ppc = "exit",
         line     |-> result.line,
         nlines   |-> NLines,
         leaked   |-> Cardinality({d \in 1..MaxTok : dec[d].pc \notin {"none", "exit"}})
-                     + (IF lpc = "exit" THEN 0 ELSE 1)]
+                     + (IF lpc \in {"none", "exit"} THEN 0 ELSE 1)]
 
-SinkGood == Quiescent => GoodOutcome(Obs)
+\* an early refusal owes no line number, but it must be as clean as any other return
+SinkGood == Quiescent => IF result.kind = "early" THEN CleanOutcome(Obs) ELSE GoodOutcome(Obs)
 
 \* when Parse has returned, no helper is blocked on a channel nobody will serve
 NoOrphan == ppc = "exit" =>
@@ -283,22 +327,22 @@ NoOrphan == ppc = "exit" =>
 BufferSuffices == \A d \in 1..MaxTok : dec[d].pc # "none" => dec[d].cap >= dec[d].n
 
 \* the result, as soon as there is one
-ResultOK == ppc = "exit" => \/ result.kind = "ok"
+ResultOK == ppc = "exit" => \/ result.kind = "ok" \/ result.kind = "early"
                             \/ result.kind = "error" /\ result.line >= 1 /\ result.line <= NLines
 
 TypeOK ==
-  /\ lpc \in {"send", "close", "exit"} /\ li \in 1..(N + 2)
-  /\ ppc \in {"idle", "decide", "runes", "fatal", "drain", "exit"}
+  /\ lpc \in {"none", "send", "close", "exit"} /\ li \in 1..(N + 2) /\ scn \in 0..1
+  /\ ppc \in {"start", "idle", "decide", "runes", "fatal", "drain", "exit"}
   /\ Len(backlog) <= 2 * MaxPeek + 1 /\ npeek \in 0..MaxPeek
   /\ \A d \in 1..MaxTok : /\ dec[d].pc \in {"none", "send", "close", "exit"}
                           /\ dec[d].buf <= dec[d].sent /\ dec[d].sent <= dec[d].n
                           /\ dec[d].buf <= dec[d].cap \/ dec[d].cap = 0
   /\ (ppc = "runes") = (curDec # 0)
-  /\ result.kind \in {"none", "ok", "error"} /\ (result.kind = "none") = (ppc # "exit")
+  /\ result.kind \in {"none", "ok", "error", "early"} /\ (result.kind = "none") = (ppc # "exit")
 
 Termination == <>Terminated
 
 (* conformance cases: one per terminal state; the orchestrator removes duplicates *)
 Emit == Terminated =>
-  PrintT(<<"CASE", ToJson([toks |-> toks, lexerr |-> lexerr, fat |-> fat, result |-> result.kind])>>)
+  PrintT(<<"CASE", ToJson([toks |-> toks, lexerr |-> lexerr, pre |-> pre, fat |-> fat, result |-> result.kind])>>)
 =============================================================================
